@@ -96,6 +96,17 @@ async fn run_script(ops: Vec<Vec<String>>, multi: bool) -> (Vec<String>, Vec<Str
                 }
             },
             "Y" => pause(op[1].parse().unwrap()).await,
+            // every caller spawned so far has logged its arrival (and, a moment later, registered with its call)
+            "Q" => {
+                let want = handles.len();
+                for _ in 0..20000 {
+                    if log.lock().unwrap().iter().filter(|l| l.starts_with("arrive ")).count() >= want {
+                        break;
+                    }
+                    pause(1).await;
+                }
+                pause(50).await;
+            },
             _ => panic!("sf op"),
         }
     }
@@ -106,11 +117,17 @@ async fn run_script(ops: Vec<Vec<String>>, multi: bool) -> (Vec<String>, Vec<Str
             let _ = tx.send(Some(Out::Val(1000 + *c as u64)));
         }
     }
+    // one deadline for all callers: 3 s after every task was released (plus 1 s per 10000 callers of a wide flight)
     let mut hung = vec![];
+    let deadline = tokio::time::Instant::now() + Duration::from_secs(3) + Duration::from_millis(handles.len() as u64 / 10);
     for (c, h) in handles {
-        match tokio::time::timeout(Duration::from_secs(3), h).await {
+        match tokio::time::timeout_at(deadline, h).await {
             Ok(_) => {},
-            Err(_) => hung.push(format!("caller {} did not return within 3 s after every task was released", c)),
+            Err(_) => {
+                if hung.len() < 5 {
+                    hung.push(format!("caller {} did not return within 3 s after every task was released", c));
+                }
+            },
         }
     }
     let l = log.lock().unwrap().clone();
@@ -199,6 +216,28 @@ pub fn run(toks: &[&str]) -> Lines {
     // `X n` as the first op: the script is repeated n times on the multi-thread runtime (races in narrow windows)
     let reps: usize = ops.first().filter(|o| o[0] == "X").map(|o| o[1].parse().unwrap()).unwrap_or(1);
     let ops: Vec<Vec<String>> = ops.into_iter().filter(|o| o[0] != "X").collect();
+    // `W n k`: n callers arrive on key k one after the other (callers numbered from the current count); a wide flight.  The
+    // log of a wide script is judged by the oracles only (it is not handed to the model).
+    let wide = ops.iter().any(|o| o[0] == "W");
+    let ops: Vec<Vec<String>> = {
+        let mut v: Vec<Vec<String>> = vec![];
+        let mut next = 0usize;
+        for o in ops {
+            if o[0] == "W" {
+                let n: usize = o[1].parse().unwrap();
+                for _ in 0..n {
+                    v.push(vec!["A".into(), next.to_string(), o[2].clone()]);
+                    next += 1;
+                }
+            } else {
+                if o[0] == "A" {
+                    next = next.max(o[1].parse::<usize>().unwrap() + 1);
+                }
+                v.push(o);
+            }
+        }
+        v
+    };
     for (flavour, multi) in [("current-thread", false), ("multi-thread", true)] {
         let rt = if multi {
             tokio::runtime::Builder::new_multi_thread().worker_threads(4).enable_all().build().unwrap()
@@ -215,7 +254,9 @@ pub fn run(toks: &[&str]) -> Lines {
             if shown < 2 || why.len() > before {
                 shown += 1;
                 let name = if n > 1 { format!("{}#{}", flavour, i) } else { flavour.to_string() };
-                if why.len() == before || shown <= 2 {
+                if wide {
+                    out.push(("obs", format!("{} {} events", name, log.len())));
+                } else if why.len() == before || shown <= 2 {
                     out.push(("obs", format!("{} accepted", name)));
                     out.push(("aux", format!("{}: {}", name, log.join(" ; "))));
                 }
